@@ -178,11 +178,18 @@ fn c10_tree(start: &str, rep: &mut Report, batch: &mut Batch, rng: &mut Rng) {
     let fail = |rep: &mut Report, name: &str, sig: &str, x: usize, q: &str, obs: &str| {
         rep.oracle(name, sig, &format!("{start}\nar.q\t{q}\t{x}"), obs);
     };
+    // a copy of the tree object (`Tree::clone`, e.g. taken after removals) is asked the same questions: same answers
+    let mut copy = RealState::new();
+    copy.tree = st.tree.clone();
     for x in 0..n + 1 {
         let live = x < n && !slots[x].deleted;
         let mut answers = std::collections::HashMap::new();
         for q in ["preorder", "postorder", "levelorder", "inorder", "subtree", "descendants", "subtree_leaves"] {
             let a = case.step(&mut st, &format!("ar.q\t{q}\t{x}"), Cmp::OkExact);
+            let (c, _) = copy.exec(&format!("ar.q\t{q}\t{x}"));
+            if c != a {
+                rep.oracle("copy", q, &format!("{start}\nar.q\t{q}\t{x}"), &format!("object: {a}; tree.clone(): {c}"));
+            }
             answers.insert(q, a);
         }
         rep.count_n("queries", 7);
@@ -198,6 +205,10 @@ fn c10_tree(start: &str, rep: &mut Report, batch: &mut Batch, rng: &mut Rng) {
     }
     // whole-tree leaf listing = the same set as the root's subtree leaves; removed slots never listed
     let a = case.step(&mut st, "ar.q\tleaves", Cmp::OkExact);
+    let (c, _) = copy.exec("ar.q\tleaves");
+    if c != a {
+        rep.oracle("copy", "get_leaves", &format!("{start}\nar.q\tleaves"), &format!("object: {a}; tree.clone(): {c}"));
+    }
     if let (Some(mut got), Some(&root)) = (parse_ids(&a), live_roots(&slots).first()) {
         let mut w = vec![];
         subtree_pre(&slots, root, &mut w);
